@@ -4,9 +4,9 @@ from typing import Any, Dict, Optional
 from django.template import Context, TemplateSyntaxError
 from django.utils.safestring import SafeString
 
-from django_components.context import _INJECT_CONTEXT_KEY_PREFIX
+from django_components.context import _COMPONENT_CONTEXT_KEY, _INJECT_CONTEXT_KEY_PREFIX
 from django_components.node import BaseNode
-from django_components.perfutil.provide import managed_provide_cache, provide_cache
+from django_components.perfutil.provide import managed_provide_cache, provide_cache, register_provide_reference
 from django_components.util.misc import gen_id
 
 
@@ -94,6 +94,14 @@ class ProvideNode(BaseNode):
 
             # `managed_provide_cache` will remove the cache entry at the end if no components reference it.
             with managed_provide_cache(provide_id):
+                # The component whose template contains this tag keeps the data alive until it is rendered
+                # completely: the default content of its slots is rendered lazily (`{{ default }}` inside a fill,
+                # possibly inside the body of another deferred component) under the context captured here,
+                # after this tag has finished.
+                owner_id = context.get(_COMPONENT_CONTEXT_KEY, None)
+                if owner_id:
+                    register_provide_reference(context, owner_id)
+
                 output = self.nodelist.render(context)
 
         return output
